@@ -41,7 +41,7 @@ func (e *wireEnc) val(class string, v uint64) uint64 {
 	return v
 }
 
-func (e *wireEnc) u64(v uint64) { e.buf = binary.LittleEndian.AppendUint64(e.buf, v) }
+func (e *wireEnc) u64(v uint64)  { e.buf = binary.LittleEndian.AppendUint64(e.buf, v) }
 func (e *wireEnc) uvar(v uint64) { e.buf = putUvarint(e.buf, v) }
 
 func swap64b(b []byte) []byte {
